@@ -10,7 +10,7 @@ import sys, os, subprocess, json, re, time, shutil
 V = os.path.dirname(os.path.dirname(os.path.abspath(__file__)))
 slot, name = sys.argv[1], sys.argv[2]
 checks = sys.argv[3:]
-d = os.path.join(V, "seeded", name)
+d = os.path.join(V, os.environ.get("SEEDED_DIR", "seeded"), name)
 stage = "/tmp/vstage-%s" % slot
 repo = "/tmp/repo-%s" % slot
 rc = subprocess.run(["rsync", "-a", "--delete", "--exclude", ".git", "--exclude", "replays", "--exclude", "*.lock",
